@@ -30,8 +30,10 @@ namespace {
 
 struct Opts {
     std::string out, root;
+    std::vector<std::string> roots;
     std::vector<std::string> funcs, cfg;
     bool cfgAll = false;
+    bool refs = false;
 };
 
 static std::vector<std::string> splitStr(llvm::StringRef s, char sep) {
@@ -94,7 +96,10 @@ struct Dumper {
         if (loc.isInvalid())
             return false;
         auto fn = SM.getFilename(loc);
-        return fn.startswith(O.root);
+        for (auto& r : O.roots)
+            if (fn.startswith(r))
+                return true;
+        return false;
     }
 
     std::string fileOf(SourceLocation loc) {
@@ -502,6 +507,60 @@ struct Dumper {
     }
 };
 
+struct RefCollector : RecursiveASTVisitor<RefCollector> {
+    Dumper& D;
+    std::map<std::string, const VarDecl*> vars;
+    std::map<std::string, const FunctionDecl*> fns;
+    std::map<std::string, int64_t> varLine, fnLine;
+    RefCollector(Dumper& d) : D(d) {}
+    bool shouldVisitTemplateInstantiations() const { return true; }
+    void addVar(const VarDecl* vd, SourceLocation loc) {
+        if (!vd || !vd->hasGlobalStorage() || isa<ParmVarDecl>(vd))
+            return;
+        auto n = D.qname(vd);
+        if (vd->isStaticLocal()) {
+            if (auto* fd = dyn_cast<FunctionDecl>(vd->getDeclContext()))
+                n = D.qname(fd) + "::" + n;
+        }
+        if (vars.emplace(n, vd).second)
+            varLine[n] = D.lineOf(loc);
+    }
+    bool VisitDeclRefExpr(DeclRefExpr* e) {
+        if (auto* vd = dyn_cast<VarDecl>(e->getDecl()))
+            addVar(vd, e->getBeginLoc());
+        else if (auto* fd = dyn_cast<FunctionDecl>(e->getDecl())) {
+            auto n = D.qname(fd);
+            if (fns.emplace(n, fd).second)
+                fnLine[n] = D.lineOf(e->getBeginLoc());
+        }
+        return true;
+    }
+    bool VisitMemberExpr(MemberExpr* e) {
+        if (auto* vd = dyn_cast<VarDecl>(e->getMemberDecl()))
+            addVar(vd, e->getBeginLoc());
+        else if (auto* fd = dyn_cast<FunctionDecl>(e->getMemberDecl())) {
+            auto n = D.qname(fd);
+            if (fns.emplace(n, fd).second)
+                fnLine[n] = D.lineOf(e->getBeginLoc());
+        }
+        return true;
+    }
+    bool VisitCXXConstructExpr(CXXConstructExpr* e) {
+        auto* fd = e->getConstructor();
+        auto n = D.qname(fd);
+        if (fns.emplace(n, fd).second)
+            fnLine[n] = D.lineOf(e->getBeginLoc());
+        return true;
+    }
+    bool VisitDeclStmt(DeclStmt* ds) {
+        for (auto* d : ds->decls())
+            if (auto* vd = dyn_cast<VarDecl>(d))
+                if (vd->isStaticLocal())
+                    addVar(vd, vd->getLocation());
+        return true;
+    }
+};
+
 struct V : RecursiveASTVisitor<V> {
     Dumper& D;
     json::Array funcs, vars, records;
@@ -530,7 +589,8 @@ struct V : RecursiveASTVisitor<V> {
         if (!seenF.insert(FD->getCanonicalDecl()).second)
             return true;
         std::string qn = D.qname(FD);
-        if (!wanted(qn))
+        bool withBody = wanted(qn);
+        if (!withBody && !D.O.refs)
             return true;
         json::Object f;
         f["name"] = qn;
@@ -566,7 +626,7 @@ struct V : RecursiveASTVisitor<V> {
             }
             f["targs"] = std::move(as);
         }
-        if (auto* cd = dyn_cast<CXXConstructorDecl>(FD)) {
+        if (auto* cd = dyn_cast<CXXConstructorDecl>(FD); cd && withBody) {
             json::Array inits;
             for (auto* in : cd->inits()) {
                 json::Object io;
@@ -580,10 +640,61 @@ struct V : RecursiveASTVisitor<V> {
             }
             f["inits"] = std::move(inits);
         }
-        f["body"] = D.node(FD->getBody());
-        if (D.wantCfg(qn))
-            f["cfg"] = D.cfgOf(FD);
+        if (D.O.refs) {
+            RefCollector rc(D);
+            rc.TraverseStmt(FD->getBody());
+            if (auto* cd = dyn_cast<CXXConstructorDecl>(FD))
+                for (auto* in : cd->inits())
+                    rc.TraverseStmt(in->getInit());
+            json::Array sr, cr;
+            for (auto& kv : rc.vars) {
+                json::Object o;
+                o["name"] = kv.first;
+                o["keys"] = D.keysOfDecl(kv.second);
+                o["const"] = kv.second->getType().isConstQualified() || kv.second->isConstexpr();
+                o["line"] = rc.varLine[kv.first];
+                sr.push_back(std::move(o));
+            }
+            for (auto& kv : rc.fns) {
+                json::Object o;
+                o["name"] = kv.first;
+                o["keys"] = D.keysOfDecl(kv.second);
+                o["line"] = rc.fnLine[kv.first];
+                cr.push_back(std::move(o));
+            }
+            f["srefs"] = std::move(sr);
+            f["crefs"] = std::move(cr);
+        }
+        if (withBody) {
+            f["body"] = D.node(FD->getBody());
+            if (D.wantCfg(qn))
+                f["cfg"] = D.cfgOf(FD);
+        }
         funcs.push_back(std::move(f));
+        return true;
+    }
+
+    std::set<const Decl*> seenR;
+    json::Array policies;
+    bool VisitCXXRecordDecl(CXXRecordDecl* RD) {
+        if (!RD->hasDefinition() || RD->isDependentContext())
+            return true;
+        auto* def = RD->getDefinition();
+        if (!D.isPolicy(def) || !seenR.insert(def->getCanonicalDecl()).second)
+            return true;
+        json::Object o;
+        o["name"] = D.qname(def);
+        json::Array bases;
+        std::set<std::string> bs;
+        def->forallBases([&](const CXXRecordDecl* b) {
+            if (D.isPolicy(b))
+                bs.insert(D.qname(b));
+            return true;
+        });
+        for (auto& b : bs)
+            bases.push_back(b);
+        o["bases"] = std::move(bases);
+        policies.push_back(std::move(o));
         return true;
     }
 
@@ -630,6 +741,7 @@ struct Consumer : ASTConsumer {
         json::Object root;
         root["functions"] = std::move(v.funcs);
         root["vars"] = std::move(v.vars);
+        root["policies"] = std::move(v.policies);
         root["root"] = O.root;
         std::error_code ec;
         llvm::raw_fd_ostream out(O.out, ec);
@@ -662,10 +774,14 @@ struct Action : PluginASTAction {
             llvm::StringRef s(a);
             if (s.startswith("out="))
                 O.out = s.substr(4).str();
-            else if (s.startswith("root="))
+            else if (s.startswith("root=")) {
                 O.root = s.substr(5).str();
+                O.roots = splitStr(s.substr(5), '|');
+            }
             else if (s.startswith("funcs="))
                 O.funcs = splitStr(s.substr(6), '|');
+            else if (s == "refs=1")
+                O.refs = true;
             else if (s.startswith("cfg=")) {
                 if (s.substr(4) == "*")
                     O.cfgAll = true;
